@@ -167,8 +167,8 @@ fn run_case(rep: &mut Report, case: u64) {
         let r: R = (|| {
             match c {
                 0 => {
-                    // collect: replaces the change set
-                    let k = st.rng.range(0, 14);
+                    // collect: replaces the change set (occasionally from a long sequence)
+                    let k = if st.rng.chance(1, 5) { st.rng.range(21, 160) } else { st.rng.range(0, 14) };
                     let pairs = st.pairs(k);
                     st.note_interleave(&pairs);
                     // dropping the old set destroys what it held
@@ -186,7 +186,7 @@ fn run_case(rep: &mut Report, case: u64) {
                     }
                 }
                 1 => {
-                    let k = st.rng.range(0, 10);
+                    let k = if st.rng.chance(1, 8) { st.rng.range(21, 120) } else { st.rng.range(0, 10) };
                     let pairs = st.pairs(k);
                     st.note_interleave(&pairs);
                     let mut ids = Vec::new();
